@@ -6,6 +6,7 @@ that what they return can be printed.
 import PoetryVerif.Proofs.Generic
 import PoetryVerif.Proofs.VersionParse
 import PoetryVerif.Model.MarkerAlg
+import PoetryVerif.Proofs.MarkerEval
 
 set_option linter.unusedSimpArgs false
 set_option linter.unusedVariables false
@@ -925,7 +926,12 @@ theorem parseMarker_of_syntax_err (s : String) (e : PyErr) (h1 : s ≠ "<empty>"
 
 /-! ### decidable equality for kernel evaluation of the `example`s (`decide +kernel`) -/
 
+-- derived inside this module's own namespace under `ParserTotal.DecEq` and only `scoped`-visible, so that it cannot
+-- clash with the instance another module (Props/C06.lean) derives for the same types
+namespace DecEq
 deriving instance DecidableEq for Marker.Atom, Marker.Syn
+end DecEq
+open DecEq
 
 /-- scoped, so that it cannot clash with an instance declared elsewhere -/
 scoped instance exceptDecEq {ε α : Type} [DecidableEq ε] [DecidableEq α] : DecidableEq (Except ε α)
